@@ -23,8 +23,11 @@ CLAIMED = {
               "boolean results, inlined lambdas) discharges every retreat (--, -=, - n), every Position::str range and the "
               "inductive invariant that no function ends before where it started - the parser never reads before or past "
               "the buffer; (4) bottom-up exception flow over the 430 functions on the parse path: only eval_error can leave "
-              "parse(), nothing can leave a destructor or noexcept function of the parser. Not decided: termination of the "
-              "lexer/parser loops; that the tree accounts for each byte beyond (1); the optimizer's no-throw (C02)."),
+              "parse(), nothing can leave a destructor or noexcept function of the parser; (5) the optimizer, which runs inside "
+              "parse(), lets nothing escape: exception flow over its 845 reachable functions with guard-aware call sites "
+              "(boxed_cast after a type test, dynamic_cast after an identifier test, Boxed_Number after is_arithmetic(), and the "
+              "checked invariant that Type_Info never flags bool as arithmetic). Not decided: termination of the "
+              "lexer/parser loops; that the tree accounts for each byte beyond (1)."),
         technique="must-pass-through + recursion-cycle analysis + abstract interpretation (cursor lower-bound domain) + interprocedural exception flow",
         ref="DESIGN.md section 4 C01"),
     "C04": dict(
@@ -92,7 +95,9 @@ CLAIMED = {
               "arithmetic/char-pointer type, or one of five allow-listed objects with a stated reason, so no mutable "
               "process-wide state exists through which one engine could see another's variables, functions, types, conversions "
               "or used-file records; (2) the per-thread store keys its thread_local map by a const id taken from a "
-              "process-wide atomic counter in every constructor (never an address), uses only that key, and is not copyable - "
+              "process-wide atomic counter in every constructor (never an address), uses only that key, is not copyable, and any "
+              "further static/thread_local object inside Thread_Storage (a lookup cache) is matched against that id, never "
+              "against the object's address - "
               "so an engine created after another died, even at the same address and on threads that outlive both, starts "
               "empty. Everything else an engine owns is a data member and dies with it. Not decided: value-level behaviour "
               "of sequences of create/eval/destroy (follows from (1)+(2) and C++ object lifetime)."),
@@ -125,16 +130,18 @@ CLAIMED = {
         technique="who-may-access rule with positive fixture, recursion-cycle depth-argument analysis on the call graph, table extraction and composition",
         ref="DESIGN.md section 4 C18"),
     "C19": dict(
-        text=("Decides the clauses whose truth is in the shape of the loader: (1) typestate over the file stream, by abstract "
-              "interpretation of load_file and (interprocedurally) skip_bom: on no path is a seek/tell/read issued on a stream "
-              "still carrying an unchecked short read - the condition under which files of 0, 1 and 2 bytes lose their "
-              "content; (2) every stream use is dominated by the is_open() test whose failing arm throws "
+        text=("Decides: (1) by abstract interpretation of load_file (skip_bom analysed in place) over file-length classes - "
+              "the points 0..K-1 bytes and the ray >= K bytes, K above every literal in the loader, each with 0-3 leading "
+              "BOM bytes - with integers as linear forms in the length and a model of std::istream (short read sets failbit; "
+              "seek/tell/read are no-ops until clear()): in every class the function returns exactly the file's bytes minus "
+              "one leading byte-order mark (files of 0, 1, 2, 3 bytes included; a BOM-only file is empty; no read overruns "
+              "its buffer, no assert fails); (2) every stream use is dominated by the is_open() test whose failing arm throws "
               "file_not_found_error, and the file is opened binary; (3) in use() the not-yet-used test, the evaluation and "
               "the insertion into the used-file set lie inside one uninterrupted critical section of the use mutex, "
               "evaluation happens only under `count == 0`, the nested include's own file_not_found_error is rethrown, and "
               "paths are tried in configured order; (4) the parser entry consumes input before parsing only under the '#!' "
-              "test. Not decided: byte-for-byte equality of eval_file(path) and eval(content) on generated programs."),
-        technique="stream typestate by abstract interpretation (interprocedural summaries), dominance rules, critical-section rule",
+              "test. Not decided: equality of eval_file(path) and eval(content) beyond 'the same bytes reach the parser'."),
+        technique="abstract interpretation over file-length classes (linear forms + stream typestate), dominance rules, critical-section rule",
         ref="DESIGN.md section 4 C19"),
     "C13": dict(
         text=("Decides data-race freedom of the engine's own shared state in the sense of lock discipline: a lock-set analysis "
@@ -189,10 +196,25 @@ CLAIMED = {
               "exactly once; at most one clause runs, in source order, each in its own scope; (3) the throw builtin throws "
               "exactly its argument, exception specifications throw the unboxed value and swallow only bad_boxed_cast, the "
               "call-stack annotation catches by reference, appends once and rethrows the same object, and a script-thrown "
-              "Boxed_Value leaves eval unchanged. Not decided: end-to-end traces of generated try/catch nests across "
+              "Boxed_Value leaves eval unchanged; (4) no handler anywhere re-raises by throwing a copy of the object it caught "
+              "through a base-class reference (also via a closure it passes the object to) - an unmatched exception keeps its "
+              "dynamic type. Not decided: end-to-end traces of generated try/catch nests across "
               "frame kinds (needs execution); user code that itself throws the engine's internal exception types."),
         technique="handler classification over call-graph reachability + typestate/path enumeration of the try statement by abstract interpretation",
         ref="DESIGN.md section 4 C10"),
+    "C15": dict(
+        text=("Decides completeness and snapshot immutability: every field of ChaiScript_Basic::State is filled by get_state "
+              "from the corresponding live member and written back by set_state, the engine's get_state/set_state copy the "
+              "whole Dispatch_Engine::State; every field of Dispatch_Engine and ChaiScript_Basic that any non-constructor "
+              "path writes (resolved through accessors, references and iterators) lies inside the saved state or is one of "
+              "five documented exceptions (conversions, per-thread stacks, an atomic lookup hint, the loaded-module cache, "
+              "namespace generators) - so nothing registered after a snapshot can survive set_state, and a new registry kept "
+              "outside the state is a violation; overload lists shared between snapshots and the live engine are replaced, "
+              "never edited in place; get_state/set_state touch no per-thread storage and hold the locks in the right mode. "
+              "Not decided: a step-by-step dictionary model of visible names; values of shared global objects (snapshots "
+              "share Boxed_Value handles by design)."),
+        technique="record-completeness rule, who-may-write rule over resolved access paths, published-container immutability, lock-mode rule",
+        ref="DESIGN.md section 4 C15"),
 }
 
 NOT_YET = "check not built yet in this session (design in DESIGN.md section 4); will be claimed once its rules run clean both ways"
